@@ -77,6 +77,17 @@ CLAIMED = {
          "(classification of deferred statements); harness; net/http's own recover on the HTTP/1.1 path. Found and fixed D3"),
    technique="Lean 4 theorem over regenerated defer facts (Go recover rule) + child-process fault/panic/abort exploration",
    design='7/C10'),
+ 'C11': dict(
+   text=("Proof (Lean 4) over a transition system of one connection's life in serveConn: once the client is gone (or a timer fires) the "
+         "enabled events lead serveConn to return, where the REGENERATED defer list closes the connection (eventually_returns, "
+         "closes_on_return, handshake_timeout_cuts); the timeout wiring (idle timeout reaches both protocol servers, handshake "
+         "timeout reaches the proxy) and the WithTimeout shape are regenerated facts (idle_wired, handshake_timeout_enforced). "
+         "The real stack is exercised with short timeouts: idle cut on h1 and h2, stalled handshakes, aborts at byte offsets, "
+         "goroutine-profile and Close() accounting"),
+   note=("PARTIAL: real timers, the OS and goroutine scheduling are outside the model; net/http and crypto/tls behaviour are assumed "
+         "contracts; D15 (hand-off racing with shutdown) is documented, its witness theorem kept. Found and fixed D5"),
+   technique="Lean 4 transition-system theorem + regenerated wiring facts + timed end-to-end scenarios",
+   design='7/C11'),
  'C16': dict(
    text=("Proof (Lean 4): over the exit paths of serveConn REGENERATED from the source (each with its metric calls), every outcome's "
          "path increments requests_total exactly once with the demanded labels (once_per_path), hence for any multiset of "
